@@ -35,10 +35,14 @@ META = {
             "int(str)/Fraction.__str__/Fraction(str) (atoms of the token-level model), protobuf's own wire layer.  "
             "No axioms (Print Assumptions: closed under the global context).  int64 overflow of the protobuf fields "
             "makes the writer REJECT a value, which is outside the property.  CompilerResult holds callables, so its "
-            "equality is checked extensionally (same problem/engine/metrics, map_back agreeing on every ground "
-            "instance).  Fixed in /repo: ecd0113, 355ac19, 91b5f1b, d21f318.  Open findings: C20-F1 (proto3 default "
+            "equality is checked extensionally (same problem/engine/metrics, map_back_action_instance of the result "
+            "read back answering like the original on EVERY ground instance of the compiled actions, enumerated "
+            "independently of the writer over the objects of the parameter types and of their subtypes; examples + "
+            "generated problems over type hierarchies x 5 compilers; an exception raised by an object read back is "
+            "a property failure).  Fixed in /repo: ecd0113, 355ac19, 91b5f1b, d21f318.  Open findings: C20-F1 (proto3 default "
             "collapse: ''/empty vs None), C20-F2 (empty SequentialPlan read as TimeTriggeredPlan), C20-F3 "
-            "(ValidationResult fields absent from the schema).",
+            "(ValidationResult fields absent from the schema), C20-F5 (user type occurring only as the type of a "
+            "quantified / forall-effect variable is not written: reader raises).",
 }
 
 IMPORTS = ["UPV.Model.ProtoCodec", "UPV.Corr.Corr_C20"]
